@@ -11,7 +11,7 @@ from vlib.common import *
 from checks.C15 import _absorb
 
 NEG = [("SortSignedAttrs", "SignedPartsSame"), ("NoSignerRaw", "SignedPartsSame"), ("DropUnparsableCert", "SignedPartsSame"),
-       ("DoubleDigestAttr", "MandatoryAttrsOnce"), ("ReencodeContent", "SignedPartsSame")]
+       ("DoubleDigestAttr", "MandatoryAttrsOnce"), ("ReencodeContent", "SignedPartsSame"), ("DetachAsData", "SignedPartsSame")]
 
 
 def _shard(vh, behs, i, n):
@@ -31,7 +31,7 @@ def run(t):
     vh = build_vh()
     r = run_tlc("Cms_MC", "Cms_MC.cfg", timeout=900, want_beh=False)
     tlc_must_pass(r, "Cms_MC")
-    run.add_tlc(r, "Cms mc (15552 shapes x 4 operations; liveness Terminates)")
+    run.add_tlc(r, "Cms mc (15552 shapes x 5 operations; liveness Terminates)")
     for v, inv in NEG:
         tlc_must_fail(run_tlc("Cms_MC", f"Cms_Neg_{v}.cfg", timeout=300, want_beh=False, workers=4), v, expect=inv)
     run.cov["negative_controls"] = [v for v, _ in NEG]
@@ -39,7 +39,7 @@ def run(t):
     tlc_must_pass(g, "Cms_Gen")
     run.add_tlc(g, "Cms gen")
     behs = g.beh
-    if len(behs) < 60000:
+    if len(behs) < 75000:
         raise NoVerdict(f"only {len(behs)} Cms behaviours")
     shards = 8
     per = 900 if t == "quick" else 10 ** 6
@@ -51,8 +51,8 @@ def run(t):
     for o in outs:
         _absorb(run, o)
         nrun += o["counters"].get("cms_behaviours", 0)
-    ops = {k: sum(o["counters"].get(k, 0) for o in outs) for k in ("op_RoundTrip", "op_Embed", "op_EmbedDetach", "op_Resign", "openssl_cms_verify", "refused_as_specified")}
-    if min(ops[k] for k in ("op_RoundTrip", "op_Embed", "op_EmbedDetach", "op_Resign")) == 0 and not run.violations:
+    ops = {k: sum(o["counters"].get(k, 0) for o in outs) for k in ("op_RoundTrip", "op_Detach", "op_Embed", "op_EmbedDetach", "op_Resign", "openssl_cms_verify", "refused_as_specified")}
+    if min(ops[k] for k in ("op_RoundTrip", "op_Detach", "op_Embed", "op_EmbedDetach", "op_Resign")) == 0 and not run.violations:
         raise NoVerdict(f"operation coverage {ops}")
     run.cov["operations"] = ops
     d = scratch("c16o")
@@ -66,7 +66,7 @@ def run(t):
     run.cov["rule"] = (f"{nrun} of {len(behs)} (shape, operation) behaviours (seeded sample in quick, all in thorough; non-DER shapes, which must simply be "
                        "refused, capped at a tenth of a sample): shape = signed-attribute order x certificates 0..2 x opaque extra certificate x CRL x "
                        "TSA key RSA/ECDSA/RSA-PSS x digest parameters NULL/absent x signing time UTC/Generalized/none x multi-valued attribute x nested "
-                       "unsigned token x digest-algorithm SET one/sorted/unsorted x DER/long-form/indefinite lengths; operations RoundTrip, Embed "
+                       "unsigned token x digest-algorithm SET one/sorted/unsorted x DER/long-form/indefinite lengths; operations RoundTrip, Detach, Embed "
                        "(real NewRequest/ParseResponse/TimestampAndMarshal, CMS and Authenticode attribute, with and without the cache's "
                        "marshal/unmarshal), EmbedDetach, Resign (catalog signer). Per part: byte equality as the model predicts; canonical DER values "
                        "must re-encode to themselves entirely; third-party and relic signatures re-verified over the emitted bytes; openssl cms "
